@@ -2,6 +2,7 @@
 
 from __future__ import annotations
 
+import itertools
 import math
 
 import numpy as np
@@ -42,6 +43,22 @@ def _ref_pdf_row(h, dims, row):
         th = d.theta(None if d.cond is None else row[d.cond])
         f = f * expected(h, d.fam, "pdf", row[i], th)
     return f
+
+
+def _support_lo(d, pt):
+    """lower end of the support of variable d at the point pt (its conditioning value taken from pt)"""
+    if d.fam.cls == "WeibullDistribution":
+        return d.theta(None if d.cond is None else pt[d.cond])["gamma"]
+    return 0.0
+
+
+def _lower_ok(h, lo, d, pt):
+    """an integration over [lo, .) equals the one over [0, .) iff the density vanishes below lo: lo is 0 or the lower
+    end of the variable's support"""
+    s_ = _support_lo(d, pt)
+    if h.sym:
+        return sym.Or(sym.lift(lo) == 0.0, sym.lift(lo) == sym.lift(s_))
+    return abs(float(lo)) <= 1e-12 or abs(float(lo) - float(s_)) <= 1e-12
 
 
 def h_pdf(h):
@@ -128,7 +145,6 @@ def h_marginal(h):
             # variables; all of those have the same range (0, inf), so any bijection is right
             others = [i for i in range(nd) if i != dim]
             point_opts = []
-            import itertools
             for perm in itertools.permutations(range(nd - 1)):
                 pt = [None] * nd
                 pt[dim] = xs[k]
@@ -136,42 +152,47 @@ def h_marginal(h):
                     pt[o] = ts[pi]
                 point_opts.append(pt)
             for rg in c["ranges"]:
-                h.close(rg[0], 0.0, "lower-limit-zero")
                 h.check(rg[1] == math.inf, "upper-limit-infinity")
+            perms = list(itertools.permutations(range(nd - 1)))
             if h.sym:
-                alts = [sym.lift(c["integrand"]) == sym.lift(_ref_pdf_row(h, dims, pt)) for pt in point_opts]
-                h.check(sym.Or(*alts), "integrand-is-joint-pdf-with-abscissa-at-dim")
+                alts = []
+                for perm, pt in zip(perms, point_opts):
+                    lows = [_lower_ok(h, c["ranges"][pi][0], dims[o], pt) for o, pi in zip(others, perm)]
+                    alts.append(sym.And(sym.lift(c["integrand"]) == sym.lift(_ref_pdf_row(h, dims, pt)), *lows))
+                h.check(sym.Or(*alts), "integrand-is-joint-pdf-with-abscissa-at-dim-and-limits-cover-the-support")
             else:
-                vals = [_ref_pdf_row(h, dims, pt) for pt in point_opts]
-                h.check(any(abs(c["integrand"] - v) <= 1e-9 * max(abs(v), 1e-300) for v in vals),
-                        "integrand-is-joint-pdf-with-abscissa-at-dim")
+                ok = False
+                for perm, pt in zip(perms, point_opts):
+                    v = _ref_pdf_row(h, dims, pt)
+                    if abs(c["integrand"] - v) <= 1e-9 * max(abs(v), 1e-300) and all(
+                            _lower_ok(h, c["ranges"][pi][0], dims[o], pt) for o, pi in zip(others, perm)):
+                        ok = True
+                h.check(ok, "integrand-is-joint-pdf-with-abscissa-at-dim-and-limits-cover-the-support")
         else:
             h.check(len(ts) == nd and len(c["args"]) == 0, "integrates-over-all-variables")
             fin = [j for j, rg in enumerate(c["ranges"]) if rg[1] != math.inf]
             h.check(len(fin) == 1, "exactly-one-finite-upper-limit")
             j0 = fin[0]
             h.close(c["ranges"][j0][1], xs[k], "finite-limit-is-the-abscissa")
-            for rg in c["ranges"]:
-                h.close(rg[0], 0.0, "lower-limit-zero")
             others = [i for i in range(nd) if i != dim]
             rest = [j for j in range(nd) if j != j0]
-            import itertools
-            alts, vals = [], []
+            alts, oks = [], []
             for perm in itertools.permutations(rest):
                 pt = [None] * nd
                 pt[dim] = ts[j0]        # the variable that runs to the abscissa is the marginal's own variable
                 for o, pj in zip(others, perm):
                     pt[o] = ts[pj]
                 ref = _ref_pdf_row(h, dims, pt)
+                lows = [_lower_ok(h, c["ranges"][j0][0], dims[dim], pt)] + [
+                    _lower_ok(h, c["ranges"][pj][0], dims[o], pt) for o, pj in zip(others, perm)]
                 if h.sym:
-                    alts.append(sym.lift(c["integrand"]) == sym.lift(ref))
+                    alts.append(sym.And(sym.lift(c["integrand"]) == sym.lift(ref), *lows))
                 else:
-                    vals.append(ref)
+                    oks.append(abs(c["integrand"] - ref) <= 1e-9 * max(abs(ref), 1e-300) and all(lows))
             if h.sym:
                 h.check(sym.Or(*alts), "integrand-is-joint-pdf-limits-on-the-right-variable")
             else:
-                h.check(any(abs(c["integrand"] - v) <= 1e-9 * max(abs(v), 1e-300) for v in vals),
-                        "integrand-is-joint-pdf-limits-on-the-right-variable")
+                h.check(any(oks), "integrand-is-joint-pdf-limits-on-the-right-variable")
         h.close(got[k], c["result"], "marginal-is-the-integral")
 
 
